@@ -5,6 +5,7 @@
 # (= drv_cpc.cpp + opcodes 40..43).
 # The model describes the readers as repaired by fixes/11_cpc_reader_count_bounds.patch, 11_cpc_uncompress_overread.patch,
 # 11_cpc_hybrid_row_range.patch, 11_cpc_sliding_col_range.patch (see MUTATIONS / DEFECTS at the end of this file).
+import os, sys
 import C05
 
 READY_C09 = True
@@ -52,7 +53,7 @@ def py_enc(lgk, nc, fic, merged, sh, tne, tab, win, kxp, hip):
 
 # ---------------------------------------------------------------------------------------------------------------------------------------
 # states of every class
-CLASSES = ['empty', 'sparse', 'hybrid', 'pinned_t', 'pinned_nt', 'sliding_t', 'sliding_nt', 'merged']
+CLASSES = ['empty', 'sparse', 'hybrid', 'pinned_t', 'pinned_nt', 'sliding_t', 'sliding_nt', 'merged', 'worstwin']
 
 def build_state(rng, b, lgk, cls, seed):
     """returns (register, merged?) of a sketch of the wanted class"""
@@ -67,6 +68,12 @@ def build_state(rng, b, lgk, cls, seed):
         r, sim = b.new_sketch(lgk, seed)
         c = rng.randint(k // 2, 19 * k // 8 - 1)
         cells = rng.sample([(row << 6) | col for row in range(k) for col in range(8)], c)
+        for rc in cells: b.ops.append([3, r, rc])
+        return r
+    if cls == 'worstwin':
+        r, sim = b.new_sketch(lgk, seed)
+        cells = worst_window(rng, lgk) or [(row << 6) | col for row in range(k) for col in range(8)][:k]
+        rng.shuffle(cells)
         for rc in cells: b.ops.append([3, r, rc])
         return r
     if cls == 'sliding_nt':
@@ -87,6 +94,57 @@ def build_state(rng, b, lgk, cls, seed):
         return res
     raise ValueError(cls)
 
+def pseudo_phase(lgk, c):
+    k = 1 << lgk
+    if 1000 * c < 2375 * k:
+        if 4 * c < 3 * k: return 16
+        if 10 * c < 11 * k: return 17
+        if 100 * c < 132 * k: return 18
+        if 3 * c < 5 * k: return 19
+        if 1000 * c < 1965 * k: return 20
+        if 1000 * c < 2275 * k: return 21
+        return 6
+    return (c >> (lgk - 4)) & 15
+
+_TABLES = {}
+def byte_tables():
+    """encoding_tables_for_high_entropy_byte of the tree under test (parsed by the C05 table translator)"""
+    import vlib
+    if vlib.REPO not in _TABLES:
+        sys.path.insert(0, os.path.join(os.path.dirname(os.path.dirname(os.path.abspath(__file__))), 'translators'))
+        import gen_cpctables as g
+        src = g.strip_comments(open(os.path.join(vlib.REPO, g.SRC)).read())
+        _TABLES[vlib.REPO] = g.parse_2d(src, 'encoding_tables_for_high_entropy_byte', 'uint16_t', 22, 256, 0xffff)
+    return _TABLES[vlib.REPO]
+
+def worst_window(rng, lgk):
+    """a PINNED sketch (offset 0, no surprising values) whose k window bytes all have the longest code of their table: the
+       compressed window then fills the compressor's buffer (safe_length_for_compressed_window_buf) to the last word, which
+       is the bound the repaired readers check; returns the raw coupons or None"""
+    k = 1 << lgk
+    try:
+        tabs = byte_tables()
+    except Exception:
+        return None
+    for c in rng.sample(range(k // 2, 19 * k // 8), 19 * k // 8 - k // 2):
+        tab = tabs[pseudo_phase(lgk, c)]
+        mx = max(e >> 12 for e in tab)
+        bypop = {}
+        for b in range(256):
+            if tab[b] >> 12 == mx: bypop.setdefault(bin(b).count('1'), []).append(b)
+        pops = [min(bypop)] * k
+        if sum(pops) > c: continue
+        progress = True
+        while sum(pops) < c and progress:
+            progress = False
+            for row in rng.sample(range(k), k):
+                if sum(pops) < c and pops[row] + 1 in bypop:
+                    pops[row] += 1; progress = True
+        if sum(pops) != c: continue
+        bs = [rng.choice(bypop[p]) for p in pops]
+        return [(row << 6) | col for row in range(k) for col in range(8) if bs[row] >> col & 1]
+    return None
+
 def lgks(tier):
     return [4, 5, 6, 7, 8] if tier == 'quick' else [4, 5, 6, 7, 8, 9, 10, 11]
 
@@ -99,6 +157,7 @@ def gen_c09(rng, tier):
         for cls in CLASSES:
             for rep in range(1 if tier == 'quick' else 3):
                 if lgk > 9 and cls in ('sliding_t', 'sliding_nt', 'merged') and rep: continue
+                if cls == 'worstwin' and lgk > 6: continue
                 seed = rng.choice([DEFAULT_SEED, DEFAULT_SEED, 0, 77, 2**64 - 1])
                 b = C05.Builder(rng)
                 r = build_state(rng, b, lgk, cls, seed)
@@ -143,12 +202,23 @@ def gen_c10(rng, tier):
 
 REPL = [0x00, 0xFF, 0x7F, 0x80]
 
+# the witnesses of coq/Regression_cpccodec.v
+REGRESSION_IMAGES = [
+    ('huge_window', [4, 1, 16, 4, 0, 18, 204, 147, 9, 0, 0, 0, 255, 255, 255, 255]),
+    ('huge_table', [4, 1, 16, 4, 0, 10, 204, 147, 1, 0, 0, 0, 255, 255, 255, 255]),
+    ('overread', [8, 1, 16, 4, 0, 14, 204, 147, 2, 0, 0, 0, 1, 0, 0, 0, 1, 0, 0, 0, 0, 0, 0, 0, 2, 0, 0, 0, 0, 0, 0, 0, 159, 0, 0, 0]),
+    ('hybrid_row', [4, 1, 16, 4, 0, 10, 204, 147, 2, 0, 0, 0, 1, 0, 0, 0, 8, 1, 0, 0]),
+    ('sliding_col', [6, 1, 16, 4, 0, 26, 204, 147, 54, 0, 0, 0, 1, 0, 0, 0, 1, 0, 0, 0, 2, 0, 0, 0,
+                     182, 109, 219, 182, 109, 219, 0, 0, 255, 29, 0, 0]),
+]
+
 def gen_c11(rng, tier):
     cases = []
     quick = tier == 'quick'
     for lgk in lgks(tier):
         for cls in CLASSES:
             if lgk > 8 and cls in ('merged',): continue
+            if cls == 'worstwin' and lgk > 5: continue
             seed = rng.choice([DEFAULT_SEED, DEFAULT_SEED, 123])
             b = C05.Builder(rng)
             r = build_state(rng, b, lgk, cls, seed)
@@ -203,6 +273,13 @@ def gen_c11(rng, tier):
                 for path in (41, 42): ops.append([path, DEFAULT_SEED] + empty_image(5, sh, flags=flags, pre=pre) + extra)
     for k0 in range(0, len(ops), 200):
         cases.append(dict(id='cpcstatic_%d' % k0, ops=ops[k0:k0 + 200], tags=['corrupt', 'static'], kind='static'))
+    # (6) the images of coq/Regression_cpccodec.v (one case each: the unrepaired readers crash on them under ASan)
+    for name, img in REGRESSION_IMAGES:
+        ops = []
+        for path in (41, 42):
+            ops.append([path, DEFAULT_SEED] + img)
+            ops.append([path, DEFAULT_SEED] + img + [0] * 64)
+        cases.append(dict(id='cpcreg_' + name, ops=ops, tags=['corrupt', 'regression'], kind='static'))
     return cases
 
 def oracle(case, irecs, mrecs):
@@ -230,7 +307,6 @@ def oracle(case, irecs, mrecs):
                 D = dump[r]; C = comp[r]
                 lgk, nc, fic, merged = D[0], D[1], D[5], D[6]
                 tne = C[0]; ntw = C[1]; tab = C[2:2 + ntw]; nww = C[2 + ntw]; win = C[3 + ntw:3 + ntw + nww]
-                seed = case.get('seeds', {}).get(r)
                 want = py_enc(lgk, nc, fic, bool(merged), R[6] | (R[7] << 8), tne, tab, win, E[0], E[1])
                 if want != R:
                     fails.append(dict(sig='cpc_documented_layout', what='the image is not what the documented layout prescribes for this sketch: got %s... want %s...' % (R[:24], want[:24]), op_index=i))
